@@ -543,7 +543,58 @@ func bvcmp(op string, a, b *Term) *Term {
 	if isCaseTable(b) && a.IsConst() {
 		return mapLeaves(b, func(y *Term) *Term { return bvcmp(op, a, y) })
 	}
+	// interval reasoning on small non-negative quantities (constants, zero extensions and their
+	// sums): decides comparisons such as 6 > 6 + zext16(m)
+	if a.Sort.Kind == SBV && a.Sort.W == 64 {
+		if la, ha, oka := smallRange(a, 0); oka {
+			if lb, hb, okb := smallRange(b, 0); okb {
+				switch op {
+				case "bvult", "bvslt":
+					if ha < lb {
+						return True
+					}
+					if la >= hb {
+						return False
+					}
+				case "bvule", "bvsle":
+					if ha <= lb {
+						return True
+					}
+					if la > hb {
+						return False
+					}
+				}
+			}
+		}
+	}
 	return mk(&Term{Op: op, Args: []*Term{a, b}, Sort: BoolSort})
+}
+
+// smallRange: an interval [lo, hi] within [0, 2^40] that is known to contain the unsigned (and
+// signed) value of a 64-bit term built from constants, zero extensions and additions.
+func smallRange(t *Term, depth int) (int64, int64, bool) {
+	const lim = int64(1) << 40
+	if depth > 8 {
+		return 0, 0, false
+	}
+	switch {
+	case t.IsConst():
+		if t.Val.IsInt64() && t.Val.Int64() >= 0 && t.Val.Int64() <= lim {
+			return t.Val.Int64(), t.Val.Int64(), true
+		}
+	case t.Op == "zero_extend":
+		w := t.Args[0].Sort.W
+		if w <= 32 {
+			return 0, (int64(1) << uint(w)) - 1, true
+		}
+	case t.Op == "bvadd":
+		l1, h1, ok1 := smallRange(t.Args[0], depth+1)
+		l2, h2, ok2 := smallRange(t.Args[1], depth+1)
+		if ok1 && ok2 && h1+h2 <= lim {
+			return l1 + l2, h1 + h2, true
+		}
+	}
+	return 0, 0, false
 }
 
 func ULt(a, b *Term) *Term { return bvcmp("bvult", a, b) }
